@@ -13,24 +13,47 @@ from props import state_gen as sg
 
 PROP = "C01"
 PROPS_FILE = "props/C01.v"
-GEN = ["gen_dispatch", "gen_chunk"]
-CORRESPONDENCES = ["prepare_write-pieces~model", "restore(take(x))-bit-exact:sampled-product", "routing:prepare_write~generated", "routing:prepare_read~generated"]
+GEN = ["gen_dispatch", "gen_chunk", "gen_glue", "gen_flatten", "gen_flatten_rec"]
+CORRESPONDENCES = ["prepare_write-pieces~model", "restore(take(x))-bit-exact:sampled-product", "routing:prepare_write~generated", "routing:prepare_read~generated",
+                   "glue:take~generated", "glue:take+restore~generated", "glue:read_object~generated"]
 RULE = ("the product structure x leaf kinds x 12 dtypes x shapes (scalar, zero-length, odd counts) x layouts (contiguous, "
         "transposed, strided, offset, broadcast) x knobs (chunk bytes {1,7,16,64,default}, slab threshold {1,9,40,default}, "
         "batching on/off, budget {1,50,large}, io concurrency {1,2,16}) x restore targets (in-place, None, wrong shape) x "
         "non-empty subsets of the stateful keys, sampled on the real Snapshot.take / restore with bit-exact comparison; "
-        "and the staged pieces of every tensor compared with the Coq model. Non-trivial = state holds a tensor with > 0 "
-        "elements; distinct by (state spec, knobs, target mode, key subset).")
+        "the staged pieces of every tensor compared with the Coq model; and the glue generated from snapshot.py run against the "
+        "real take / restore / read_object on the same structures with id-carrying leaves (keys that are string prefixes of "
+        "each other, keys that need escaping, RNGState first / last, replication globs, batching on/off, restore targets "
+        "same / empty / other structure, key subsets): global manifest, prepare_write arguments, what every load_state_dict "
+        "received, the in-place target of every prepare_read, read_object of every manifest path. Non-trivial = state holds a "
+        "tensor with > 0 elements (every glue case counts); distinct by (state spec, knobs, target mode, key subset).")
 TRUSTED = [
     "Coq 8.16.1 kernel and vm_compute; theorems closed under the global context",
     "the end-to-end statement is a composition: containers (C15), metadata (C14), tensor bits (C17), planning (C16), "
     "pipelines (C11), manifest view (C07), locations (C05) are proved under their own properties; C01's own theorems compose "
-    "the tensor data path (chunk -> slab -> store -> read -> reassemble) at the byte level",
+    "the tensor data path (chunk -> slab -> store -> read -> reassemble) at the byte level and, over the glue regenerated "
+    "from snapshot.py on every run (translator/gen_glue.py -> gen/GlueGen.v), the container-level data flow of "
+    "_take_impl / restore / _load_stateful / _get_state_dict_for_manifest / read_object",
+    "translator/gen_glue.py (Python ast -> Gallina, fail closed): statement-by-statement translation of the eight glue methods; "
+    "components are recognised by name with their exact argument lists (checked against the callee's def in the source tree); "
+    "dropped as observers: log_event, logger calls, _log_api_usage_once, _validate_app_state, sync_close / event_loop.close, "
+    "pg.barrier (C12's subject)",
+    "model/Glue.v: leaves are opaque values; prepare_write = inline entry or (generated get_storage_path location, one write "
+    "request); a store is the list of writes performed; a future is filled by the read executor with what w_read finds; "
+    "the laws a world must satisfy (glue_laws in props/C01.v) are hypotheses of the general theorems and are PROVED for the "
+    "one-rank world of model/GlueGenObs.v, which is the world the correspondence runs",
     "torch.save / torch.load for objects and torch_save dtypes: oracle pair (load (save x) = x), exercised here",
 ]
 ASSUMPTIONS = [
-    "storage locations are distinct (C05's hypotheses no_suffix_clash / no_empty_component; its known findings are the exceptions)",
+    "storage locations are distinct (C05's hypotheses no_suffix_clash / no_empty_component; its known findings are the exceptions); "
+    "in the one-rank world this is proved from: application-state keys are non-empty",
     "objects survive torch.save/torch.load (this torch loads with weights_only: only allow-listed types are generated)",
+    "glue theorems: distinct non-empty app_state keys, dict keys distinct under Python equality (wf_obj), no RNGState in the "
+    "proved statement (the RNG-first / RNG-last case is run by vm_compute and against the real code, not proved), restore "
+    "targets are a subset of the saved keys, same world size, no sharded leaves; state_dict()/load_state_dict() do not raise",
+    "glue_laws (general-world theorems only): all_gather returns the rank's own contribution (C12), the partitioner keeps the "
+    "rank's requests (C06, one rank / nothing moved), stored objects read back exactly (C17/C16/C11), slab relocation preserves "
+    "what an entry reads (C01_tensor_data_path), consolidation succeeds (C06), the rank's manifest view at the same world size "
+    "is its own manifest (C07, C14), read batching serves the same requests (C16), elasticity touches sharded entries only (C07)",
 ]
 IMPORTS = "From TS Require Import model.Pipeline.\n"
 KNOB_ENV = {"chunk": "TORCHSNAPSHOT_MAX_CHUNK_SIZE_BYTES_OVERRIDE", "slab": "TORCHSNAPSHOT_SLAB_SIZE_THRESHOLD_BYTES_OVERRIDE",
@@ -284,11 +307,374 @@ def check_routing(ctx, res):
         res.traces_validated += len(cases)
 
 
+# =========================================================================== the glue of snapshot.py (gen/GlueGen.v)
+GLUE_IMPORTS = "From TS Require Import model.Flatten model.FlattenPy model.Glue model.GlueGenObs.\n"
+RNG_LEAF = 2999997          # = 0 mod 3: a tensor
+KIND = {"tensor": 0, "prim": 1, "obj": 2}
+
+
+def s_term(s: str) -> str:
+    return "[" + "; ".join(str(ord(c)) for c in s) + "]"
+
+
+def key_term(k) -> str:
+    if isinstance(k, str):
+        return f"(KStr {s_term(k)})"
+    if isinstance(k, bool):
+        return "(KBool true)" if k else "(KBool false)"
+    return f"(KInt ({k}))"
+
+
+def key_obs(k):
+    if isinstance(k, str):
+        return [0, [ord(c) for c in k]]
+    if isinstance(k, bool):
+        return [2, int(k)]
+    if isinstance(k, int):
+        return [1, k]
+    return [9]
+
+
+def leaf_value(kind: int, lid: int):
+    """a Python object of the given kind that carries its model leaf id"""
+    import torch
+    if kind == 0:
+        shape = [[1], [2], [1, 1], [3]][lid % 4]
+        return torch.full(shape, lid, dtype=torch.int64)
+    if kind == 1:
+        return lid if lid % 2 else f"s{lid}"
+    return ("o", lid)
+
+
+def leaf_id_of(v):
+    """inverse of leaf_value (None when v carries no id)"""
+    import torch
+    if isinstance(v, torch.Tensor):
+        if v.dtype == torch.uint8 and v.numel() > 64:
+            return RNG_LEAF
+        if v.dtype == torch.int64 and v.numel() > 0:
+            return int(v.reshape(-1)[0])
+        return None
+    if isinstance(v, bool):
+        return None
+    if isinstance(v, int):
+        return v
+    if isinstance(v, str) and v[:1] == "s" and v[1:].lstrip("-").isdigit():
+        return int(v[1:])
+    if isinstance(v, tuple) and len(v) == 2 and v[0] == "o":
+        return v[1]
+    return None
+
+
+def obj_obs(o):
+    """the universal observation of a (restored / saved) object: structure with leaf ids"""
+    t = type(o)
+    if t is list:
+        return [1, [obj_obs(x) for x in o]]
+    if t in (dict, collections.OrderedDict):
+        return [2, int(t is collections.OrderedDict), [[key_obs(k), obj_obs(v)] for k, v in o.items()]]
+    lid = leaf_id_of(o)
+    if lid is not None:
+        return [0, lid]
+    if o is None:
+        return [0, -1]
+    return [9]
+
+
+class Ids:
+    def __init__(self, base):
+        self.n = base
+
+    def fresh(self, kind):
+        self.n += 1
+        return 3 * self.n + kind
+
+
+def idify(spec, ids: Ids):
+    """state_gen structure spec -> (python object with id-carrying leaves, Gallina term of type obj)"""
+    k = spec[0]
+    if k in KIND:
+        if k == "obj" and isinstance(spec[1], dict) and 1 in spec[1]:
+            # a dict flatten cannot flatten (1 and "1" collide): kept whole, stored as one object
+            a, b = ids.fresh(2), ids.fresh(1)
+            return ({1: leaf_value(2, a), "1": leaf_value(1, b)},
+                    f"(ODict false [({key_term(1)}, Leaf {a}); ({key_term('1')}, Leaf {b})])")
+        lid = ids.fresh(KIND[k])
+        return leaf_value(KIND[k], lid), f"(Leaf {lid})"
+    if k == "list":
+        xs = [idify(c, ids) for _, c in spec[1]]
+        return [x for x, _ in xs], "(OList [" + "; ".join(t for _, t in xs) + "])"
+    items = [(key, idify(c, ids)) for key, c in spec[1]]
+    py = (dict if k == "dict" else collections.OrderedDict)((key, x) for key, (x, _) in items)
+    term_ = (f"(ODict {'true' if k == 'odict' else 'false'} [" +
+             "; ".join(f"({key_term(key)}, {t})" for key, (_, t) in items) + "])")
+    return py, term_
+
+
+def gen_glue_case(rng):
+    app = gen_app(rng)
+    keys = list(app.keys())
+    if rng.random() < 0.3:                                   # keys one of which is a prefix of the other
+        extra = rng.choice([k + "b" for k in keys] + [keys[0][:1] or "m"])
+        if extra not in app:
+            app[extra] = app[keys[0]] if rng.random() < 0.5 else ("dict", [("w", ("tensor", "int64", [1], "contiguous", 0))])
+    keys = list(app.keys())
+    globs = rng.choice([[], [], ["**"], [keys[0].replace("[", "?") + "/*"], ["*/w*", "*/[ab]"], ["**", "*/a"], ["*"]])
+    subset = keys if rng.random() < 0.5 else rng.sample(keys, rng.randint(1, len(keys)))
+    targets = {k: rng.choice(["same", "same", "empty", "other"]) for k in subset}
+    return {"app": app, "globs": globs, "nobatch": rng.random() < 0.5, "targets": targets,
+            "rng": rng.choice([None, None, "rng", "0rng", "zz/rng"]), "rng_restore": rng.random() < 0.7,
+            "order": rng.random() < 0.5}
+
+
+def run_glue_case(ctx, case, res, want_model=True):
+    """one take + restore + read_object on the real code with id-carrying leaves.
+    Returns (take input term, observations) or None; appends Failures for violations of C01 on the ids."""
+    import fnmatch
+    import torch
+    from torchsnapshot import RNGState, Snapshot, StateDict
+    import torchsnapshot.snapshot as snapmod
+    from torchsnapshot.flatten import flatten
+    from torchsnapshot.manifest import PrimitiveEntry
+    from torchsnapshot.manifest_utils import is_container_entry
+    from props.C15 import entry_obs as c15_entry_obs, Table
+
+    loads, writes, preps, cur = [], [], [], {}
+
+    class RecSD(StateDict):
+        def __init__(self, data, sid):
+            super().__init__(data)
+            self.sid = sid
+
+        def load_state_dict(self, state_dict):
+            loads.append([self.sid, obj_obs(state_dict), []])
+            super().load_state_dict(state_dict)
+
+    class RecRNG(RNGState):
+        sid = 0
+
+        def load_state_dict(self, state_dict):
+            loads.append([self.sid, obj_obs(state_dict), []])
+            super().load_state_dict(state_dict)
+
+    ids = Ids(0)
+    saved, terms, sf_terms = {}, {}, []
+    sid = 10
+    app_state = {}
+    order = list(case["app"].keys())
+    if case.get("order"):
+        order = order[::-1]
+    for k in order:
+        py, tm = idify(case["app"][k], ids)
+        if tm.startswith("(ODict true ["):            # UserDict copies its argument into a plain dict
+            tm = "(ODict false [" + tm[len("(ODict true ["):]
+        sid += 1
+        app_state[k] = RecSD(py, sid)
+        saved[k], terms[k] = app_state[k].state_dict(), tm
+        sf_terms.append(f"({s_term(k)}, ({sid}, false, {tm}))")
+    rng_key = case.get("rng")
+    if rng_key and rng_key not in app_state:
+        r = RecRNG()
+        r.sid = 99
+        app_state[rng_key] = r
+        sf_terms.append(f"({s_term(rng_key)}, (99, true, (ODict false [((KStr {s_term('rng_state')}), Leaf {RNG_LEAF})])))")
+    else:
+        rng_key = None
+    globs = list(case["globs"])
+    table = []
+    for k, sf in app_state.items():
+        _, fl = flatten(sf.state_dict(), prefix=k)
+        for p in fl:
+            for g in globs:
+                if fnmatch.fnmatch(p, g):
+                    table.append((p, g))
+    tin = ("([" + "; ".join(sf_terms) + "], [" + "; ".join(s_term(g) for g in globs) + "], [" +
+           "; ".join(f"({s_term(p)}, {s_term(g)})" for p, g in table) + f"], {term(bool(case['nobatch']))})")
+    root = ctx.scratch("c01g")
+    path = os.path.join(root, "snap")
+    replay = {"glue": case}
+    real_pw, real_pr, real_gsd = snapmod.prepare_write, snapmod.prepare_read, Snapshot.__dict__["_get_state_dict_for_manifest"]
+
+    def spy_pw(*a, **kw):
+        writes.append([obj_obs(kw.get("obj")), [ord(c) for c in kw.get("logical_path", "?")], kw.get("rank", -1),
+                       int(bool(kw.get("replicated"))), int(bool(kw.get("is_async_snapshot", False)))])
+        return real_pw(*a, **kw)
+
+    def spy_pr(*a, **kw):
+        entry = kw.get("entry", a[0] if a else None)
+        out = kw.get("obj_out", a[1] if len(a) > 1 else None)
+        if not isinstance(entry, PrimitiveEntry):
+            lp = next((k for k, v in cur.get("m", {}).items() if v is entry), "?")
+            preps.append((lp, [] if out is None else [obj_obs(out)]))
+        return real_pr(*a, **kw)
+
+    def spy_gsd(stateful_key, manifest, *a, **kw):
+        cur["m"] = manifest
+        return real_gsd.__func__(stateful_key, manifest, *a, **kw)
+
+    obs = {}
+    import logging
+    slog = logging.getLogger("torchsnapshot.snapshot")
+    slevel = slog.level
+    slog.setLevel(logging.ERROR)
+    try:
+        with Knobs({"nobatch": case["nobatch"]}), safe_gc():
+            snapmod.prepare_write = spy_pw
+            try:
+                try:
+                    Snapshot.take(path, app_state, replicated=globs)
+                finally:
+                    snapmod.prepare_write = real_pw
+            except Exception as e:  # noqa
+                res.failures.append(Failure(f"C01:take-raised:{type(e).__name__}", f"take raised {type(e).__name__}: {str(e)[:200]} [glue]", replay))
+                return tin, None
+            take_loads = list(loads)
+            del loads[:]
+            man = Snapshot(path).get_manifest()
+            mobs = []
+            tab = Table()
+            for p in sorted(man):
+                e = man[p]
+                if is_container_entry(e):
+                    eo = c15_entry_obs(e, tab)
+                elif isinstance(e, PrimitiveEntry):
+                    eo = [4, int(bool(e.replicated)), obj_obs(e.get_value())]
+                else:
+                    loc = getattr(e, "location", None)
+                    eo = [3, int(bool(getattr(e, "replicated", False))), [ord(c) for c in loc] if (case["nobatch"] and loc is not None) else []]
+                mobs.append([[ord(c) for c in p], eo])
+            obs["take"] = [[mobs, sorted(writes, key=lambda w: "".join(map(chr, w[1]))), take_loads]]
+            # ---- restore
+            tids = Ids(1000)
+            targets, tgt_terms = {}, []
+            tsid = 50
+            for k, variant in case["targets"].items():
+                if variant == "same":
+                    py, tm = idify(case["app"][k], tids)
+                    if tm.startswith("(ODict true ["):
+                        tm = "(ODict false [" + tm[len("(ODict true ["):]
+                elif variant == "empty":
+                    py, tm = {}, "(ODict false [])"
+                else:
+                    lid = tids.fresh(0)
+                    py, tm = {"zz": leaf_value(0, lid)}, f"(ODict false [((KStr {s_term('zz')}), Leaf {lid})])"
+                tsid += 1
+                targets[k] = RecSD(py, tsid)
+                tgt_terms.append(f"({s_term(k)}, ({tsid}, false, {tm}))")
+            if rng_key and case.get("rng_restore"):
+                r = RecRNG()
+                r.sid = 98
+                targets[rng_key] = r
+                tgt_terms.append(f"({s_term(rng_key)}, (98, true, (ODict false [((KStr {s_term('rng_state')}), Leaf {RNG_LEAF})])))")
+            obs["targets_term"] = "[" + "; ".join(tgt_terms) + "]"
+            snapmod.prepare_read = spy_pr
+            Snapshot._get_state_dict_for_manifest = staticmethod(spy_gsd)
+            try:
+                try:
+                    Snapshot(path).restore(targets)
+                finally:
+                    snapmod.prepare_read = real_pr
+                    Snapshot._get_state_dict_for_manifest = real_gsd
+            except Exception as e:  # noqa
+                res.failures.append(Failure(f"C01:restore-raised:{type(e).__name__}", f"restore raised {type(e).__name__}: {str(e)[:200]} [glue {case['targets']}]", replay))
+                return tin, obs
+            obs["restore"] = [[list(loads), [[[ord(c) for c in lp], o] for lp, o in sorted(preps, key=lambda x: x[0])]]]
+            # the property itself, on the ids: every requested stateful received exactly what its state_dict() returned
+            by_sid = {l[0]: l[1] for l in loads}
+            for k, t in targets.items():
+                if isinstance(t, RecRNG):
+                    continue
+                want = obj_obs(saved[k])
+                if by_sid.get(t.sid) != want:
+                    res.failures.append(Failure("C01:restored-structure-differs",
+                                                f"stateful {k!r}: load_state_dict received {str(by_sid.get(t.sid))[:160]} instead of {str(want)[:160]} [glue]", replay))
+            # ---- read_object on every manifest path (and one that is not there)
+            ro = []
+            for p in list(sorted(man))[:7] + ["0/nope", "nope"]:
+                try:
+                    v = Snapshot(path).read_object(p)
+                    o = [obj_obs(v)]
+                except Exception:  # noqa
+                    o = []
+                ro.append((p, o))
+                e = man.get(p)
+                if e is not None and not is_container_entry(e):
+                    lp = p.split("/", 1)[1]
+                    if o != [flat_lookup(saved, app_state, lp)]:
+                        res.failures.append(Failure("C01:read_object-returns-another-value",
+                                                    f"read_object({p!r}) returned {str(o)[:120]} [glue]", replay))
+            obs["read_object"] = ro
+    finally:
+        slog.setLevel(slevel)
+        shutil.rmtree(root, ignore_errors=True)
+    return tin, obs
+
+
+def flat_lookup(saved, app_state, logical_path):
+    from torchsnapshot.flatten import flatten
+    for k, sf in app_state.items():
+        _, fl = flatten(sf.state_dict(), prefix=k)
+        if logical_path in fl:
+            return obj_obs(fl[logical_path])
+    return None
+
+
+GLUE_CORPUS = [
+    # keys "a" and "ab": one is a string prefix of the other; a key that needs escaping; replication globs
+    {"app": {"a": ("dict", [("w", ("tensor", "int64", [1], "contiguous", 0)), ("p", ("prim", 1))]),
+             "ab": ("odict", [("w", ("tensor", "int64", [1], "contiguous", 0)), ("l", ("list", [(None, ("obj", (1,))), (None, ("prim", 2))]))]),
+             "x/y": ("dict", [(1, ("tensor", "int64", [1], "contiguous", 0)), ("k/s", ("prim", 3))])},
+     "globs": ["a/*", "**"], "nobatch": False, "targets": {"a": "same", "ab": "same", "x/y": "same"}, "rng": "rng", "rng_restore": True,
+     "order": False},
+    {"app": {"m": ("dict", [("o", ("obj", {"not": "flattened", 1: 2, "1": 3})), ("e", ("list", [])), ("d", ("dict", []))]),
+             "mm": ("dict", [("w", ("tensor", "int64", [1], "contiguous", 0))])},
+     "globs": [], "nobatch": True, "targets": {"m": "empty", "mm": "other"}, "rng": "0rng", "rng_restore": False, "order": True},
+]
+
+
+def check_glue(ctx, res, cases=None):
+    """the generated take / restore / read_object glue (model/GlueGenObs.v over gen/GlueGen.v) against the real Snapshot API"""
+    rng = ctx.rng
+    cases = cases if cases is not None else GLUE_CORPUS + [gen_glue_case(rng) for _ in range(ctx.n(30, 400))]
+    t_cases, r_cases, o_cases, t_meta, r_meta, o_meta = [], [], [], [], [], []
+    for case in cases:
+        tin, obs = run_glue_case(ctx, case, res)
+        nk = len(case["app"])
+        res.case({"glue": {k: str(v)[:100] for k, v in case["app"].items()}, "globs": case["globs"], "nobatch": case["nobatch"],
+                  "targets": case["targets"], "rng": case.get("rng")}, nontrivial=True)
+        res.count("glue.n_keys", nk); res.count("glue.globs", len(case["globs"])); res.count("glue.rng", bool(case.get("rng")))
+        for v in case["targets"].values():
+            res.count("glue.target", v)
+        if not obs:
+            continue
+        if "take" in obs:
+            t_cases.append((tin, val(obs["take"]))); t_meta.append(case)
+        if "restore" in obs:
+            r_cases.append((f"({tin}, {obs['targets_term']}, true)", val(obs["restore"]))); r_meta.append(case)
+        for p, o in obs.get("read_object", []):
+            o_cases.append((f"({tin}, {s_term(p)})", val(o))); o_meta.append({"path": p, "case": case})
+    for name, fn, cs, meta, ty in ((CORRESPONDENCES[4], "obs_take", t_cases, t_meta, "take_in"),
+                                   (CORRESPONDENCES[5], "obs_take_restore", r_cases, r_meta, "take_in * list sf_in * bool"),
+                                   (CORRESPONDENCES[6], "obs_read_object", o_cases, o_meta, "take_in * pystr")):
+        bad, errs = coqrun.run_cases("C01_" + fn, GLUE_IMPORTS, fn, cs, shard=150, in_type=ty)
+        for e in errs:
+            res.mismatches.append(Mismatch(name, "coqc error", None, e))
+        for i in bad:
+            res.mismatches.append(Mismatch(name, meta[i], cs[i][1][:400], None))
+        res.traces_validated += len(cs)
+
+
 def correspond(ctx: Ctx) -> Result:
     res = Result(rule=RULE)
     rng = ctx.rng
+    # the executable models must be current even when a proof obligation of this run stopped the build of props/C01.vo
+    ok, out, _ = coqrun.make(["model/GlueGenObs.vo", "model/DispatchGenObs.vo", "model/Pipeline.vo"])
+    if not ok:
+        res.mismatches.append(Mismatch(CORRESPONDENCES[4], "generated model unavailable", None,
+                                       "the generated models do not build: " + coqrun.error_excerpt(out, 8)))
     check_pieces(ctx, res)
     check_routing(ctx, res)
+    check_glue(ctx, res)
     # corpus: the cases that used to fail (fixed) must keep passing
     corpus = [
         ({"m": ("dict", [("bf", ("tensor", "bfloat16", [3], "contiguous", 1)), ("z", ("tensor", "float32", [0, 3], "contiguous", 2)),
@@ -348,6 +734,17 @@ def replay(ctx: Ctx, data):
     if data.get("quantized"):
         r = Result(); quantized_inplace(ctx, r)
         return r.failures[0] if r.failures else None
+    if "glue" in data:
+        r = Result()
+
+        def fixs(x):
+            if isinstance(x, list):
+                return tuple(fixs(y) for y in x) if x and isinstance(x[0], str) and x[0] in ("tensor", "prim", "obj", "dict", "odict", "list") else [fixs(y) for y in x]
+            return x
+        case = dict(data["glue"])
+        case["app"] = {k: fixs(v) for k, v in case["app"].items()}
+        run_glue_case(ctx, case, r)
+        return r.failures[0] if r.failures else None
     if "app" not in data:
         return None
     r = Result()
@@ -369,12 +766,24 @@ MANIFEST = {
                    "tensor's bytes, and through slab batching (every threshold >= 1, any request order, any staging completion "
                    "order), storage, merged/ranged reads (any read order) the bytes reassembled for a leaf equal its original "
                    "bytes; containers/keys/order (C15), metadata (C14), bits<->bytes for every layout (C17), planning (C16), "
-                   "exactly-once pipelines (C11), manifest view (C07) are the component theorems. The real API is tied in by "
-                   "sampling the full product (structure x dtypes x shapes x layouts x knobs x targets x key subsets) with "
-                   "bit-exact comparison and by comparing the staged pieces with the model."),
-    "level_note": ("Trusted: Coq kernel+VM; the composition is by shared interfaces (byte lists, piece ids), the component models are "
-                   "tied to the code by their own correspondences; torch.save/load is an oracle pair; storage locations assumed "
-                   "distinct (C05). Quantized in-place restore is a known finding. No axioms."),
-    "technique": "Coq composition theorems over the component models (byte-level data path) + bit-exact sampling of the knob/layout/target product on the real API",
+                   "exactly-once pipelines (C11), manifest view (C07) are the component theorems. The GLUE that wires them "
+                   "together is regenerated from snapshot.py on every run (translator/gen_glue.py, statement by statement, fail "
+                   "closed) and proved over the generated terms: take then restore of any subset of the statefuls hands every "
+                   "load_state_dict exactly the object state_dict() returned (container types, keys with types, order, leaves), "
+                   "take calls prepare_write once per leaf with the right path / rank / replicated / async flag, restore offers "
+                   "the target's own tensor as in-place destination, the manifest lists every container entry and exactly one "
+                   "entry per leaf under <rank>/<logical path>, read_object returns the leaf stored for a path and raises for "
+                   "unknown paths. The real API is tied in by sampling the full product (structure x dtypes x shapes x layouts "
+                   "x knobs x targets x key subsets) with bit-exact comparison, by comparing the staged pieces with the model and "
+                   "by running the generated glue against the real take / restore / read_object on id-carrying states."),
+    "level_note": ("Trusted: Coq kernel+VM; translators gen_glue / gen_dispatch / gen_chunk / gen_flatten(_rec); the composition is by "
+                   "shared interfaces (byte lists, piece ids, opaque leaves + component laws listed as hypotheses and proved for the "
+                   "one-rank world); the component models are tied to the code by their own correspondences; torch.save/load is an "
+                   "oracle pair; storage locations assumed distinct (C05; proved in the one-rank world from non-empty keys). Not "
+                   "proved: the RNGState-first/last ordering inside the glue theorem (run, not proved; C19 owns it), multi-rank "
+                   "partitioning of replicated entries, sharded leaves. Quantized in-place restore is a known finding. No axioms."),
+    "technique": ("Coq composition theorems over the component models (byte-level data path) + theorems over the statement-by-statement "
+                  "translation of the snapshot.py glue (option monad, effects log, abstract world with laws) + bit-exact sampling of "
+                  "the knob/layout/target product and differential runs of the generated glue on the real API"),
     "design_ref": "DESIGN.md section 5, C01",
 }
